@@ -403,6 +403,13 @@ impl DeltaBuilder {
                 let Some(current_node_delta) = self.current_node_delta.as_mut() else {
                     anyhow::bail!("received a key-value op without a node op before.");
                 };
+                // A set-max-version op only makes sense for a node delta without key-values.
+                // After key-values it could lower the delta's max version below the versions
+                // it carries, which the receiver's `apply_delta` asserts against.
+                anyhow::ensure!(
+                    current_node_delta.key_values.is_empty(),
+                    "received a set-max-version op after key-value ops of the same node"
+                );
                 current_node_delta.max_version = max_version;
             }
         }
